@@ -22,7 +22,7 @@ EXTENDS Integers, FiniteSets, Sequences, TLC
 
 CONSTANTS ZoneKinds,   \* how the target zone hangs off its signed parent
           QKinds,      \* what is asked
-          Tampers,     \* set of <<position, kind>> tamperings (incl. <<"none","none">>)
+          Tampers,     \* set of tamperings: functions [Positions -> kind], "none" where untouched
           Flags,       \* set of [do, ad, cd] client flag records
           Anchors      \* set of BOOLEAN: is a trust anchor configured
 
@@ -49,8 +49,8 @@ ZoneSigned == zone \in {"signed", "signed-same", "nsec3"}
 Negative == qk \in {"nodata", "nx"}
 NeedsProof == qk \in {"nodata", "nx", "wild"}     \* the answer rests on NSEC/NSEC3 records
 
-TPos == tamper[1]
-TKind == tamper[2]
+Positions == {"referral", "dnskey", "answer"}
+K(pos) == tamper[pos]        \* the tampering applied at a position ("none" = untouched)
 
 (* Which validation attribute a tampering destroys at its position.
    data      : record data altered            -> signature no longer verifies
@@ -84,14 +84,14 @@ Start ==
 (* parent's referral: DS + RRSIG(DS), or a signed proof that no DS exists *)
 Referral ==
   /\ pc = "referral"
-  /\ LET here == TPos = "referral" IN
+  /\ LET k == K("referral") IN
      dsState' =
        IF ZoneSigned THEN
-         (IF here /\ (BreaksSig(TKind) \/ TKind \in {"strip", "swapds"}) THEN "bogus"
-          ELSE IF here /\ TKind = "dropds" THEN "bogus"      \* no DS and no proof of its absence
+         (IF BreaksSig(k) \/ k \in {"strip", "swapds"} THEN "bogus"
+          ELSE IF k = "dropds" THEN "bogus"      \* no DS and no proof of its absence
           ELSE "secure")
        ELSE   \* unsigned child: the parent must PROVE there is no DS
-         (IF here /\ (BreaksSig(TKind) \/ TKind \in {"strip", "dropproof", "foreignproof"}) THEN "bogus"
+         (IF BreaksSig(k) \/ k \in {"strip", "dropproof", "foreignproof"} THEN "bogus"
           ELSE "insecure")
   /\ pc' = "dnskey"
   /\ UNCHANGED <<zone, qk, flags, tamper, anchor, keyState, ansState, reply>>
@@ -102,7 +102,7 @@ Dnskey ==
   /\ keyState' =
        IF dsState = "bogus" THEN "bogus"
        ELSE IF dsState = "insecure" THEN "none"
-       ELSE IF TPos = "dnskey" /\ (BreaksSig(TKind) \/ TKind \in {"strip", "swapds"}) THEN "bogus"
+       ELSE IF BreaksSig(K("dnskey")) \/ K("dnskey") \in {"strip", "swapds"} THEN "bogus"
        ELSE "trusted"
   /\ pc' = "answer"
   /\ UNCHANGED <<zone, qk, flags, tamper, anchor, dsState, ansState, reply>>
@@ -110,14 +110,14 @@ Dnskey ==
 (* the answer (or denial) itself *)
 Answer ==
   /\ pc = "answer"
-  /\ LET here == TPos = "answer" IN
+  /\ LET k == K("answer") IN
      ansState' =
        IF keyState = "bogus" THEN "bogus"
        ELSE IF keyState = "none" THEN     \* provably insecure zone: data accepted unsigned
-         (IF here /\ TKind = "inject" THEN "bogus" ELSE "insecure")
+         (IF k = "inject" THEN "bogus" ELSE "insecure")
        ELSE
-         (IF here /\ (BreaksSig(TKind) \/ TKind \in {"strip", "inject"}) THEN "bogus"
-          ELSE IF here /\ NeedsProof /\ TKind \in {"dropproof", "foreignproof"} THEN "bogus"
+         (IF BreaksSig(k) \/ k \in {"strip", "inject"} THEN "bogus"
+          ELSE IF NeedsProof /\ k \in {"dropproof", "foreignproof"} THEN "bogus"
           ELSE "secure")
   /\ pc' = "reply"
   /\ UNCHANGED <<zone, qk, flags, tamper, anchor, dsState, keyState, reply>>
@@ -147,20 +147,22 @@ Done == pc = "done"
 (* does the tampering change anything the validator looks at?  (a tampering that
    finds nothing to act on -- dropping the proof from a referral that carries a DS,
    stripping signatures an unsigned zone never had -- is a no-op) *)
-Effective ==
-  CASE TKind \in {"none", "clonetag"} -> FALSE
-    [] TPos = "referral" /\ TKind \in {"dropproof", "foreignproof"} -> ~ZoneSigned
-    [] TPos = "referral" /\ TKind \in {"dropds", "swapds"} -> ZoneSigned
-    [] TPos = "dnskey" -> ZoneSigned
-    [] TPos = "answer" /\ TKind \in {"dropproof", "foreignproof"} -> ZoneSigned /\ NeedsProof
-    [] TPos = "answer" /\ TKind = "inject" -> TRUE
-    [] TPos = "answer" -> ZoneSigned          \* signature / data tampering in an unsigned zone is out of scope
+EffectiveAt(pos) ==
+  LET k == K(pos) IN
+  CASE k \in {"none", "clonetag"} -> FALSE
+    [] pos = "referral" /\ k \in {"dropproof", "foreignproof"} -> ~ZoneSigned
+    [] pos = "referral" /\ k \in {"dropds", "swapds"} -> ZoneSigned
+    [] pos = "dnskey" -> ZoneSigned
+    [] pos = "answer" /\ k \in {"dropproof", "foreignproof"} -> ZoneSigned /\ NeedsProof
+    [] pos = "answer" /\ k = "inject" -> TRUE
+    [] pos = "answer" -> ZoneSigned          \* signature / data tampering in an unsigned zone is out of scope
     [] OTHER -> TRUE
+Effective == \E pos \in Positions : EffectiveAt(pos)
 
 (* is the path, as delivered, authentic?  (the RFC 4035 verdict) *)
 Untampered == ~Effective
 PathSecure == anchor /\ ZoneSigned /\ Untampered
-PathInsecureProven == anchor /\ ~ZoneSigned /\ ~(TPos = "referral" /\ Effective)
+PathInsecureProven == anchor /\ ~ZoneSigned /\ ~EffectiveAt("referral")
 
 (* the only legal outcomes with CD=0: SERVFAIL, or exactly what the signer published *)
 TruthOrServfail ==
